@@ -1,6 +1,7 @@
 """C16 - equivariance under reflection and field reversal: (1) mirror symmetry of the real topology descriptors / index code (LIA over symbolic
 sizes): LSN <-> USN, LDN <-> UDN, CDN self-mirror; (2) sign and 2*pi-scaling equivariance of the real geometry2 + calcMetric closed forms."""
 import types
+from fractions import Fraction
 
 import numpy
 import z3
@@ -174,7 +175,9 @@ def _mk_sign(orthogonal, what):
 
 def _mk_scale(orthogonal, names=None):
     def body(env):
-        k = env.real("k", lo=1.5, hi=8)
+        # orthogonal branch: k symbolic; non-orthogonal branch: one fixed rational k (the option divides by the constant 2*pi; with a symbolic k on top of
+        # the symbolic stencil the normal forms of this branch cost 5-10 minutes per output and the time varied by a factor of two between runs)
+        k = env.real("k", lo=1.5, hi=8) if orthogonal else Fraction(7, 2)
         if env.mode == "sym":
             env.sqrt_hints = []
         with sym_numpy(env):
@@ -217,7 +220,7 @@ for _o in (True, False):
         for _n in K_EXP:
             OBLIGATIONS.append(Ob("metric_psi_divide_twopi_nonorth_" + _n, _mk_scale(False, names=(_n,)), tier="thorough", wall_s=2400, family="field reversal",
                                   encodes=["hypnotoad.core.mesh:MeshRegion.calcMetric", "hypnotoad.core.mesh:MeshRegion.geometry2"],
-                                  desc="%s scales with the documented power of k when psi -> psi/k (non-orthogonal branch)" % _n, stubs=["as C02"], bounds="k in [1.5, 8]"))
+                                  desc="%s scales with the documented power of k when psi -> psi/k (non-orthogonal branch)" % _n, stubs=["as C02"], bounds="k = 7/2 (fixed; symbolic k in the orthogonal variant)"))
 
 import harness.c03 as _c03  # noqa: E402
 for _rc in (0, 1):
